@@ -15,7 +15,7 @@ import copy
 import math
 import signal
 
-from .. import core, sessions
+from .. import core, sessions, layouts
 from ..models import dtw_ref
 
 PROP = "C18"
@@ -29,7 +29,8 @@ COMPONENTS = {"real": ["subsequence/localconcurrences.py (LocalConcurrences, LCM
                        "dtw.warping_paths_affinity (Python)", "dtw.warping_paths_affinity_fast full and compact (C: dtw_warping_paths_affinity, dtw_expand_wps_slice_affinity)",
                        "C: dtw_wps_max / negativize / positivize / best_path_affinity when a use_c instance can be constructed"],
               "stub": ["client sessions and their interleaving (seeded scheduler)", "reference model: affinity recurrence + consumed-cell set (sim/models/dtw_ref.py)"]}
-ASSUMPTIONS = ["bounds: mostly series length 2..10 (one history in 12: length 11..24, minlen up to 8, |buffer| up to 6, up to ~60 ops); values on a small grid so that equal stretches (real local concurrences) exist",
+ASSUMPTIONS = ["the two series are handed over as contiguous arrays or (independently, three times in seven each) as strided / reversed views of the same numbers",
+               "bounds: mostly series length 2..10 (one history in 12: length 11..24, minlen up to 8, |buffer| up to 6, up to ~60 ops); values on a small grid so that equal stretches (real local concurrences) exist",
                "reset() is taken to void generators created before it (they keep working on the dropped matrix)", "use_c instances (full and compact) are driven through the same histories; where the C matrix is known not to equal the recurrence (window set, penalty outside {0,1}: known findings) the magnitude-based oracles are switched off for C instances and the structural ones (path shape, end cell, minlen, no reuse since reset, restart as fresh) remain",
                "'traced from a maximum' and 'the search ends only when no positive cell is left' are judged while every search since the last reset used buffer 0 and minlen <= 1 (one history in three is generated that way throughout): otherwise discarded short paths and buffer zones consume cells no caller sees",
                "a restart (restart=True at a generator's first next, kbest_matches_store(keep=False) returning) empties the model's consumed set: the model never demands reuse, it only forbids reuse since the last reset",
@@ -96,6 +97,8 @@ def gen_history(st):
              "penalty": pen_choice, "window": win_choice,
              "only_triu": rng.choice([None, None, False, True]) if selfcmp else rng.choice([None, None, False, l1 == (len(s2)) and rng.below(2) == 0]),
              "variant": variant}
+    lrng = st("layout")       # a stream of its own: the layouts do not shift the rest of the workload
+    setup["layout"] = [lrng.choice(layouts.KINDS), lrng.choice(layouts.KINDS)]
     nsess = 2 + rng.below(2)
     programs = [[] for _ in range(nsess)]
     sid = 0
@@ -244,8 +247,9 @@ def check_path(path, end_rc, M, U, minlen, ctx, check_disjoint=True, shape=None)
 def _mk(setup):
     import numpy as np
     from dtaidistance.subsequence.localconcurrences import LocalConcurrences
-    s1 = np.array(setup["series1"], dtype=np.double)
-    s2 = None if setup["series2"] is None else np.array(setup["series2"], dtype=np.double)
+    lay = setup.get("layout") or ["c", "c"]
+    s1 = layouts.view(np.array(setup["series1"], dtype=np.double), lay[0])
+    s2 = None if setup["series2"] is None else layouts.view(np.array(setup["series2"], dtype=np.double), lay[1])
     v = setup["variant"]
     return LocalConcurrences(s1, s2, gamma=setup["gamma"], tau=setup["tau"], delta=setup["delta"], delta_factor=setup["delta_factor"],
                              only_triu=setup["only_triu"], penalty=setup["penalty"], window=setup["window"],
